@@ -1319,3 +1319,142 @@ pub fn run_c16(p: &Params) -> Outcome {
     }
     out
 }
+
+// ---------------------------------------------------------------------------------------------
+// C08 across threads: the vector lives on one thread, every subscriber stream on its own
+// park/unpark thread (this is what `unsafe impl Send for ReusableBoxRecvFuture` promises to allow).
+
+fn round_c08_threads(seed: u64, pm: u64) -> Result<(usize, usize), String> {
+    use eyeball_im::{ObservableVector, VectorDiff};
+    use imbl::Vector;
+    install_hook();
+    let mut rng = Rng::new(seed);
+    let cap = *rng.pick(&[1usize, 2, 4, 16]);
+    let n_subs = rng.range(1, 3);
+    let ops = if small() { rng.range(3, 10) } else { rng.range(5, 120) };
+    let mut ob: ObservableVector<u64> = ObservableVector::with_capacity(cap);
+    ob.append((0..rng.below(4) as u64).collect());
+    let quiesce = Arc::new(Quiesce(AtomicBool::new(false)));
+    let mut hs = vec![];
+    for k in 0..n_subs {
+        let sub = ob.subscribe();
+        let batched = rng.chance(1, 2);
+        let q = quiesce.clone();
+        let sseed = mix(seed, 10 + k as u64);
+        hs.push(std::thread::spawn(move || -> Result<(Vector<u64>, usize, usize), String> {
+            set_free_mode(sseed, pm);
+            let mut replica = sub.values();
+            let mut items = 0usize;
+            let mut resets = 0usize;
+            enum St {
+                U(std::pin::Pin<Box<eyeball_im::VectorSubscriberStream<u64>>>),
+                B(std::pin::Pin<Box<eyeball_im::VectorSubscriberBatchedStream<u64>>>),
+            }
+            let mut st = if batched { St::B(Box::pin(sub.into_batched_stream())) } else { St::U(Box::pin(sub.into_stream())) };
+            loop {
+                let (flag, w) = pause_waker(true);
+                let mut cx = Context::from_waker(&w);
+                let r: Poll<Option<Vec<VectorDiff<u64>>>> = match &mut st {
+                    St::U(s) => s.as_mut().poll_next(&mut cx).map(|o| o.map(|d| vec![d])),
+                    St::B(s) => s.as_mut().poll_next(&mut cx),
+                };
+                match r {
+                    Poll::Ready(Some(ds)) => {
+                        if ds.is_empty() {
+                            return Err(format!("subscriber {k} received an empty batch"));
+                        }
+                        for d in ds {
+                            if matches!(d, VectorDiff::Reset { .. }) {
+                                resets += 1;
+                            }
+                            let ok = std::panic::catch_unwind(std::panic::AssertUnwindSafe(|| d.apply(&mut replica)));
+                            if ok.is_err() {
+                                return Err(format!("subscriber {k} received an inapplicable diff"));
+                            }
+                            items += 1;
+                        }
+                    }
+                    Poll::Ready(None) => break,
+                    Poll::Pending => loop {
+                        if flag.woken() {
+                            break;
+                        }
+                        if q.get() && !flag.woken() {
+                            // the vector is gone: a pending subscriber must have been woken by the drop
+                            return Err(format!("subscriber {k} was Pending when the vector was dropped and its waker was never woken"));
+                        }
+                        std::thread::park_timeout(Duration::from_millis(1));
+                    },
+                }
+            }
+            clear_mode();
+            Ok((replica, items, resets))
+        }));
+    }
+    set_free_mode(mix(seed, 5), pm);
+    let mut ctr = 100u64;
+    for _ in 0..ops {
+        ctr += 1;
+        let len = ob.len();
+        match rng.below(10) {
+            0 | 1 => ob.push_back(ctr),
+            2 => ob.push_front(ctr),
+            3 => {
+                ob.pop_front();
+            }
+            4 => {
+                ob.pop_back();
+            }
+            5 if len > 0 => {
+                ob.set(rng.below(len), ctr);
+            }
+            6 if len > 0 => {
+                ob.remove(rng.below(len));
+            }
+            7 => ob.insert(rng.below(len + 1), ctr),
+            8 => {
+                let mut tx = ob.transaction();
+                tx.push_back(ctr);
+                tx.push_front(ctr + 1000);
+                if rng.chance(1, 2) {
+                    tx.pop_back();
+                }
+                if rng.chance(3, 4) {
+                    tx.commit();
+                }
+            }
+            _ => ob.truncate(rng.below(len + 1)),
+        }
+        if rng.chance(1, 6) {
+            std::thread::yield_now();
+        }
+    }
+    let fin: Vector<u64> = (*ob).clone();
+    drop(ob);
+    clear_mode();
+    quiesce.set();
+    let mut total = 0;
+    for (k, h) in hs.into_iter().enumerate() {
+        let (replica, items, _resets) = h.join().map_err(|_| "subscriber thread panicked".to_string())??;
+        total += items;
+        if replica != fin {
+            return Err(format!(
+                "subscriber {k} ended with replica {:?} but the final contents are {:?}",
+                replica.iter().collect::<Vec<_>>(),
+                fin.iter().collect::<Vec<_>>()
+            ));
+        }
+    }
+    Ok((total + ops, n_subs + 1))
+}
+
+pub fn run_c08(p: &Params) -> Outcome {
+    let mut out = Outcome::default();
+    if want(p, "seq") {
+        out.merge(crate::runners_vec::run_c08(p));
+    }
+    if want(p, "threads") {
+        out.merge(run_rounds("C08", p, "c08-threads", p.n(1_500, 40_000), round_c08_threads));
+    }
+    out
+}
